@@ -9,7 +9,16 @@ def classify_exception(e):
     from problog.errors import ProbLogError
     if isinstance(e, ProbLogError):
         return "problog:" + type(e).__name__
-    return "internal:" + type(e).__name__
+    # internal exceptions carry the place they were raised at (file stem and function), so that a known
+    # failure mode can be told apart from any other crash
+    import os
+    import traceback
+    tb = traceback.extract_tb(e.__traceback__)
+    where = ""
+    if tb:
+        fr = tb[-1]
+        where = "@%s.%s" % (os.path.splitext(os.path.basename(fr.filename))[0], fr.name)
+    return "internal:" + type(e).__name__ + where
 
 
 def query(program, goal, engine=None):
